@@ -31,3 +31,28 @@ if which in ("seeded", "both"):
         first = "no - see meta.json: " + hist.split(";", 1)[-1].strip()[:200] if hist.startswith("initially MISSED") else "yes"
         print("| %s | %s | %s | %s | %s |" % (rel, d.get("site", "").replace("geometry_tools/", ""),
               str(d.get("title", ""))[:150].replace("|", "\\|").replace("\n", " "), det, first))
+if which == "laws":
+    # the laws as built, read from the modules themselves
+    sys.path.insert(0, ROOT); sys.path.insert(0, "/repo")
+    os.environ.setdefault("MPLBACKEND", "Agg")
+    import importlib
+    print("| property | law | cases quick / thorough (per shard x shards) | exhaustive domains |"); print("|---|---|---|---|")
+    for i in range(1, 21):
+        pid = "C%02d" % i
+        mod = importlib.import_module("vt.props.c%02d" % i)
+        for law in mod.LAWS:
+            if law.strategy is not None:
+                q, t = law.budget("quick"), law.budget("thorough")
+                sq, stt = law.nshards("quick"), law.nshards("thorough")
+                cases = "%d x %d / %d x %d" % (q, sq, t, stt)
+            else:
+                cases = "-"
+            ex = ""
+            if law.exhaustive is not None:
+                try:
+                    doms = law.exhaustive("quick")
+                    if doms and not isinstance(doms, list): doms = [doms]
+                    ex = "; ".join("%s (%d)" % (n_[:70], len(list(c_))) for n_, c_ in doms)
+                except Exception as e:  # noqa
+                    ex = "yes"
+            print("| %s | %s | %s | %s |" % (pid, law.name, cases, ex.replace("|", "\\|")))
